@@ -66,8 +66,8 @@ WriteAt(st, c) ==
     LET h == H(st, c)   data == Node(st, c).data IN
     IF h.app THEN Fail("EAPPENDAT", st)
     ELSE IF c.off < 0 THEN Fail("NEGOFF", st)
+    ELSE IF c.data = <<>> THEN Ok(st)       \* os.File.WriteAt issues no system call for an empty buffer
     ELSE IF h.dir \/ ~h.wr THEN Fail("EBADF", st)
-    ELSE IF c.data = <<>> THEN Ok(st)
     ELSE Ret([R0 EXCEPT !.n = Len(c.data)],
              [st EXCEPT !.ino[h.ino].data = WriteAtPos(data, c.off, c.data)])
 
@@ -183,6 +183,7 @@ StrictOutcomes(st, c) ==
              \cup (IF c.op = "writeat" /\ H(st, c).app THEN {Fail("EAPPENDAT", st)}
                    ELSE IF c.off < 0 THEN {Fail("NEGOFF", st)}
                    ELSE IF c.op = "readat" /\ c.n = 0 THEN {Ok(st)}
+                   ELSE IF c.op = "writeat" /\ c.data = <<>> THEN {Ok(st)}
                    ELSE {})
     ELSE {BaseApply(st, c)}
 
